@@ -89,6 +89,66 @@ def lsnSymStep (n : Nat) (Tre Tim V : Nat → Nat → Rat) : List GenEntry :=
       [(2, e.1, e.2.1, n - 1 - e.2.2.1, V e.1 e.2.1), (1, e.1, e.2.1, n - 1 - e.2.2.1, Tim e.1 e.2.1 / 2),
        (0, e.1, e.2.1, n - 1 - e.2.2.1, Tre e.1 e.2.1 / 2)])
 
+/-! ### controlled linear swap network steps
+
+`Controlled…LinearSwapNetworkTrotterStep.trotter_step` emits the same sequence with every gate replaced by
+its version controlled on `control_qubit` (`CRxxyy`, `CRyxxy`, `rot111`, `rot11(control, q)`), i.e. every
+generator `G` becomes `|1⟩⟨1|_c ⊗ G`, followed by `rz(-constant·time)` on the control: generator kind `4`,
+`|1⟩⟨1|_c · constant` (up to the global phase of `rz`). -/
+
+def lsnAsymStepControlled (n : Nat) (Tre Tim V : Nat → Nat → Rat) (const : Rat) : List GenEntry :=
+  lsnAsymStep n Tre Tim V ++ [(4, 0, 0, 0, const)]
+
+def lsnSymStepControlled (n : Nat) (Tre Tim V : Nat → Nat → Rat) (const : Rat) : List GenEntry :=
+  lsnSymStep n Tre Tim V ++ [(4, 0, 0, 0, const)]
+
+/-! ### split-operator and low-rank steps
+
+Additional kinds: `5` = number operator `ñ_i` of the `i`-th orbital of the diagonalising basis (entry
+`(5, i, i, position, ε_i)`), `6` / `7` = basis change `bogoliubov_transform(qubits, W)` / its inverse
+(no coefficient; `p` = which matrix).  The swap networks here are plain (qubit) swap networks. -/
+
+/-- `AsymmetricSplitOperatorTrotterStep.trotter_step`: network `rot11(-2 V_pq t)`; on the reversed qubits:
+inverse basis change, `rz(-ε_i t)` on `qubits[i]`, basis change -/
+def soAsymStep (n : Nat) (V : Nat → Nat → Rat) (E : Nat → Rat) : List GenEntry :=
+  ((C14.swapNetwork n false).2.map fun e => (2, e.1, e.2.1, e.2.2.1, 2 * V e.1 e.2.1))
+  ++ [(7, 0, 0, 0, 0)]
+  ++ ((List.range n).map fun i => (5, i, i, n - 1 - i, E i))
+  ++ [(6, 0, 0, 0, 0)]
+
+/-- `SymmetricSplitOperatorTrotterStep.trotter_step`: `rz(-ε_i t/2)`, basis change, network
+`rot11(-2 V_pq t)`, on the reversed qubits: inverse basis change, `rz(-ε_i t/2)` -/
+def soSymStep (n : Nat) (V : Nat → Nat → Rat) (E : Nat → Rat) : List GenEntry :=
+  ((List.range n).map fun i => (5, i, i, i, E i / 2))
+  ++ [(6, 0, 0, 0, 0)]
+  ++ ((C14.swapNetwork n false).2.map fun e => (2, e.1, e.2.1, e.2.2.1, 2 * V e.1 e.2.1))
+  ++ [(7, 0, 0, 0, 0)]
+  ++ ((List.range n).map fun i => (5, i, i, n - 1 - i, E i / 2))
+
+/-- positions after `m` reversals of the register -/
+def posAfter (n m i : Nat) : Nat := if m % 2 = 0 then i else n - 1 - i
+
+/-- the loop body of `AsymmetricLowRankTrotterStep.trotter_step` for the singular components
+`j = start, start+1, …`: basis change to the component's basis (`p` = `j + 1`), network
+`rot11(-2 c_j[p,q] t)`, then on the reversed qubits `rz(-c_j[p,p] t)` -/
+def lrComponents (n : Nat) : Nat → List (Nat → Nat → Rat) → List GenEntry
+  | _, [] => []
+  | j, c :: cs =>
+    [(6, j + 1, 0, 0, 0)]
+    ++ ((C14.swapNetwork n false).2.map fun e =>
+          (2, e.1, e.2.1, posAfter n j e.2.2.1, 2 * c e.1 e.2.1))
+    ++ ((List.range n).map fun p => (3, p, p, posAfter n (j + 1) p, c p p))
+    ++ lrComponents n (j + 1) cs
+
+/-- `AsymmetricLowRankTrotterStep.trotter_step`: one-body part in its eigenbasis (`rz(-ε_p t)`), then the
+components, then the change back to the computational basis -/
+def lrStep (n : Nat) (E : Nat → Rat) (cs : List (Nat → Nat → Rat)) : List GenEntry :=
+  [(6, 0, 0, 0, 0)] ++ ((List.range n).map fun p => (5, p, p, p, E p))
+  ++ lrComponents n 0 cs ++ [(6, cs.length + 1, 0, 0, 0)]
+
+/-- `step_qubit_permutation` of the low-rank step: reversal iff the number of components is odd -/
+def lrReverses (cs : List (Nat → Nat → Rat)) : Bool := cs.length % 2 == 1
+
 end C15
 end Model
 end OFV
